@@ -182,15 +182,16 @@ PROPS = {
     ),
     "C17": dict(
         title="Hash functions match their standards for every input and call pattern",
-        verus=[("sha2_update", None, "quick"), ("sha2_digest", 100, "quick"), ("sha3_sponge", None, "quick")],
+        verus=[("sha2_update", None, "quick"), ("sha2_digest", 100, "quick"), ("sha3_sponge", None, "quick"), ("blake2s_stream", None, "quick")],
         kani=[],
         cases=["hash_chunked", "hash_script", "shake_chunked", "shake_script", "blake2s_chunked", "blake2s_script", "blake2s_keyed_chunked", "blake2s_keyed_reset"],
         explanation="SHA-2 family: update() of both block sizes is proved (Verus, loop invariant, any number of calls, any chunk lengths) to extend the absorbed byte string: view(final) == view(old) ++ src, where view relates (h, buf, ctr) to the message through an abstract compression function. Padding/finalisation (to_be_bytes has no Verus spec in this toolchain), the compression functions, SHA-3 and BLAKE2s are covered only by the labelled stand-in sweep against from-the-standard reference implementations.",
         assumptions=["process() (the compression function) is used through an assumed contract: final.h == compress(old.h, old.buf), buf and ctr unchanged",
+                     "Blake2s::process_block(h, block, ctr, last) is the RFC 7693 compression function F (declared, abstract f2s)",
                      "KeccakState::process() is the Keccak-f[1600] permutation on the 25 lanes (declared, abstract keccak_f)",
                      "SHA3Core::RATE / SHAKE::RATE equal their initialiser 200 - (SZ >> 2) as a mathematical integer (declared axiom generated from the source text; the instantiation check is the compiler's)",
                      "usize is 64 bits (global size_of usize == 8)"],
-        level_text="SHA-224/256/384/512 streaming: update() proved by Verus to be concatenation on the abstract message view for every chunking; digest_to() (finalisation, both block sizes) proved to run the compression chain over msg || 0x80 || 0^k || BE(8*len) with k minimal (FIPS 180-4 5.1), one or two final blocks, and to write the state words big-endian (including the 4-byte half word of SHA-512/224). SHA-3 / SHAKE sponge at byte level (FIPS 202): SHA3Core::update == absorb(message) for every chunking (lemma: absorb(a ++ b) == absorb after absorb), SHA3Core::digest_to == permute after 0x06 .. 0x80 padding then the first SZ/8 state bytes, SHAKE::flip == 0x1F .. 0x80 padding, SHAKE::extract == squeeze(n) with lazy permutation (lemma: squeeze(a + b) == squeeze(a) then squeeze(b), i.e. the output stream does not depend on how extract calls are chunked). The  compression functions, SHAKE::inject (impl AsRef parameter: no specification can be attached to AsRef in this Verus; its loop is textually SHA3Core::update's), Keccak-f, SHA-2 compression, BLAKE2s: stand-in only (reference implementations written from the standards).",
+        level_text="SHA-224/256/384/512 streaming: update() proved by Verus to be concatenation on the abstract message view for every chunking; digest_to() (finalisation, both block sizes) proved to run the compression chain over msg || 0x80 || 0^k || BE(8*len) with k minimal (FIPS 180-4 5.1), one or two final blocks, and to write the state words big-endian (including the 4-byte half word of SHA-512/224). SHA-3 / SHAKE sponge at byte level (FIPS 202): SHA3Core::update == absorb(message) for every chunking (lemma: absorb(a ++ b) == absorb after absorb), SHA3Core::digest_to == permute after 0x06 .. 0x80 padding then the first SZ/8 state bytes, SHAKE::flip == 0x1F .. 0x80 padding, SHAKE::extract == squeeze(n) with lazy permutation (lemma: squeeze(a + b) == squeeze(a) then squeeze(b), i.e. the output stream does not depend on how extract calls are chunked). BLAKE2s (RFC 7693 3.3): Blake2s::new/reset (parameter block), update for every chunking (the last block, even a full one, stays buffered; counters are the running byte count), inner_finalize (zero padding, counter = total length, last-block flag, little-endian output words), KeyedBlake2s::new/reset/update (key block first; the reset defect D5 fails this proof when re-introduced). The  compression functions, SHAKE::inject (impl AsRef parameter: no specification can be attached to AsRef in this Verus; its loop is textually SHA3Core::update's), Keccak-f, SHA-2 compression, BLAKE2s: stand-in only (reference implementations written from the standards).",
         level_note="Compression function abstract (process() is an assumed contract). to_be_bytes is reached through the documented `lebytes` renaming to declared twins. The macro-generated public wrappers (Sha256::finalize etc.) are not under contract. Message lengths are limited to < 2^61 (2^125) bytes by the contract, as in FIPS 180-4.",
     ),
     "C19": dict(
